@@ -127,7 +127,9 @@ def _run_job(job):
                 bypath[o.path] = o
     chosen = list(bypath.values())
     if _W.get('tier') != 'thorough' and chosen:
-        chosen = [max(chosen, key=lambda o: len(o.hyps))]
+        # quick: up to six paths per case, those with the most hypotheses first (it used to be one; a contradiction that arises only on
+        # one branch - such as a fact about an array invalidated by a later store - hides on the others)
+        chosen = sorted(chosen, key=lambda o: -len(o.hyps))[:6]
     for o in chosen:
         sv = _z3.Solver()
         sv.set('timeout', 1500)
